@@ -17,7 +17,7 @@ common.use_repo()
 import hypergraph.cache as hcache  # noqa: E402
 from hypergraph.cache import DiskCache, InMemoryCache  # noqa: E402
 
-TAMPERS = ["payload_flip", "payload_trunc", "payload_type", "payload_del", "hmac_del", "hmac_garbage", "hmac_type"]
+TAMPERS = ["payload_flip", "payload_trunc", "payload_type", "payload_del", "hmac_del", "hmac_garbage", "hmac_type", "hmac_nonascii"]
 
 
 class RecordingCache:
@@ -91,6 +91,20 @@ class C09(Prop):
                 nb2 = dict(nb, dataOuts=perm, name="na", sameFuncAs=None)
                 yield {"kind": "runs2", "programs": [prog_a, [{"name": "g0", "nodes": [dict(na, dataOuts=perm)], "bound": []}]],
                        "values": [["x", rng.randint(0, 5)]], "backend": rng.choice(["mem", "lru2", "disk"]), "runner": rng.choice(["sync", "async"])}
+                continue
+            if r < 0.19 and r >= 0.14:
+                # one gate function behind two route gates that differ ONLY by their fallback, sharing a cache
+                gate = {"name": "gt", "kind": "route", "params": [["x", None]], "targets": ["ta", "tb"], "fallback": "ta", "multiTarget": False, "defaultOpen": rng.random() < 0.5,
+                        "body": {"b": "table", "rows": [[1, "tb"], [2, "ta"]], "dflt": None}, "cache": True}
+                ta = {"name": "ta", "kind": "fn", "params": [["x", None]], "dataOuts": ["ra"], "body": {"b": "tag", "t": "ta"}}
+                tb = {"name": "tb", "kind": "fn", "params": [["x", None]], "dataOuts": ["rb"], "body": {"b": "tag", "t": "tb"}}
+                progs = [[{"name": "g0", "nodes": [dict(gate, name="na"), ta, tb], "bound": []}], [{"name": "g0", "nodes": [dict(gate, name="na", fallback="tb"), ta, tb], "bound": []}]]
+                for pr in progs:
+                    pr[0]["nodes"][0]["targets"] = ["ta", "tb"]
+                if rng.random() < 0.5:
+                    progs.reverse()
+                yield {"kind": "runs2", "programs": progs, "values": [["x", rng.choice([0, 0, 1, 2, 5])]],
+                       "backend": rng.choice(["mem", "lru2", "disk"]), "runner": rng.choice(["sync", "async"])}
                 continue
             if r < 0.14:
                 # one function behind two nodes that differ ONLY by a rename of its parameters (swap / rotation), sharing a cache
@@ -212,7 +226,7 @@ class C09(Prop):
                 spec = prog[0]["nodes"][0]
                 if "0:na" in env.funcs:
                     spec = dict(spec, sameFuncAs="na")
-                    prog = [{**prog[0], "nodes": [spec]}]
+                    prog = [{**prog[0], "nodes": [spec] + prog[0]["nodes"][1:]}]
                 ref = impl.run_case(prog, None, case["values"], {}, case["runner"], async_bodies=False, env=env)
                 got = impl.run_case(prog, None, case["values"], {}, case["runner"], async_bodies=False, env=env, cache=cache)
                 out.append({"ref": _core(ref), "got": _core(got), "ref_calls": [], "got_calls": [], "routes_ref": [], "routes_got": []})
@@ -259,6 +273,10 @@ class C09(Prop):
                     raw.set(k + ":hmac", "garbage")
                 elif t == "hmac_type":
                     raw.set(k + ":hmac", 12345)
+                elif t == "hmac_nonascii":
+                    cur = raw.get(k + ":hmac", default=None)
+                    # one character of the stored signature replaced by a non-ASCII one (what a flipped bit in the text can produce)
+                    raw.set(k + ":hmac", ("\u00e9" + cur[1:]) if isinstance(cur, str) and cur else "\u00e9")
             raw.close()
             return {"gets": gets}
         finally:
